@@ -48,9 +48,12 @@ class Dispatcher(DispatcherBase):
     ) -> None:
         sel = selectors.DefaultSelector()
         sel.register(self.app.sock.sock, selectors.EVENT_READ)
+        # a ws:// url can end on a TLS transport (redirect to wss://): data that is
+        # already decrypted is not seen by select()
+        pending = getattr(self.app.sock.sock, "pending", None)
         try:
             while self.app.keep_running:
-                if sel.select(self.ping_timeout):
+                if (pending and pending()) or sel.select(self.ping_timeout):
                     if not read_callback():
                         break
                 check_callback()
